@@ -306,6 +306,53 @@ impl<'a> Tr<'a> {
         Ok(vars)
     }
 
+    /// does the token stream of an assertion contain something that may change state? (syntactic and conservative: a call
+    /// of a method whose name is that of a mutating std method or of a `&mut self` function known to the translator, `&mut`,
+    /// an assignment operator)
+    fn assertion_effect(&self, ts: proc_macro2::TokenStream) -> Option<String> {
+        const MUTATORS: &[&str] = &[
+            "insert", "remove", "push", "pop", "swap_remove", "clear", "take", "replace", "swap", "resize", "extend", "drain", "retain",
+            "truncate", "append", "entry", "set", "push_back", "push_front", "pop_back", "pop_front", "get_or_insert_with", "or_insert",
+            "or_insert_with", "split_off", "dedup", "sort", "reverse", "next", "remove_entry", "shrink_to_fit", "reserve", "fetch_add",
+            "fetch_sub", "store",
+        ];
+        let v: Vec<proc_macro2::TokenTree> = ts.into_iter().collect();
+        for (i, t) in v.iter().enumerate() {
+            match t {
+                proc_macro2::TokenTree::Ident(id) => {
+                    let n = id.to_string();
+                    let called = matches!(v.get(i + 1), Some(proc_macro2::TokenTree::Group(g)) if g.delimiter() == proc_macro2::Delimiter::Parenthesis);
+                    let after_dot = i > 0 && matches!(&v[i - 1], proc_macro2::TokenTree::Punct(p) if p.as_char() == '.' || p.as_char() == ':');
+                    if called && after_dot {
+                        let known_mut = self.prims.iter().any(|p| p.self_mut && p.name == n) || self.sigs.iter().any(|s| s.self_mut && s.name == n);
+                        if MUTATORS.contains(&n.as_str()) || n.ends_with("_mut") || known_mut {
+                            return Some(format!("call of `{n}`"));
+                        }
+                    }
+                    if n == "mut" && i > 0 && matches!(&v[i - 1], proc_macro2::TokenTree::Punct(p) if p.as_char() == '&') {
+                        return Some("`&mut`".to_string());
+                    }
+                }
+                proc_macro2::TokenTree::Punct(p) if p.as_char() == '=' => {
+                    // `=`, `+=`, … but not `==`, `!=`, `<=`, `>=`, `=>`
+                    let prev = if i > 0 { if let proc_macro2::TokenTree::Punct(q) = &v[i - 1] { if q.spacing() == proc_macro2::Spacing::Joint { Some(q.as_char()) } else { None } } else { None } } else { None };
+                    let next_eq = p.spacing() == proc_macro2::Spacing::Joint && matches!(v.get(i + 1), Some(proc_macro2::TokenTree::Punct(q)) if q.as_char() == '=' || q.as_char() == '>');
+                    let cmp = matches!(prev, Some('=') | Some('!') | Some('<') | Some('>')) || next_eq;
+                    if !cmp {
+                        return Some("an assignment".to_string());
+                    }
+                }
+                proc_macro2::TokenTree::Group(g) => {
+                    if let Some(w) = self.assertion_effect(g.stream()) {
+                        return Some(w);
+                    }
+                }
+                _ => {}
+            }
+        }
+        None
+    }
+
     fn wants_value(&self, mode: Mode) -> bool {
         match mode {
             Mode::Value => true,
@@ -555,6 +602,11 @@ impl<'a> Tr<'a> {
                     let single = m.mac.path.segments.len() == 1;
                     if single && matches!(name.as_str(), "assert" | "debug_assert" | "assert_eq" | "assert_ne" | "debug_assert_eq" | "debug_assert_ne") {
                         let txt = self.src_text(m.mac.span());
+                        // an assertion is skipped only when nothing in it can change state: a side effect inside it would
+                        // silently disappear from the translation (and, for `debug_assert!`, from release builds)
+                        if let Some(why) = self.assertion_effect(m.mac.tokens.clone()) {
+                            return self.err(m.span(), format!("outside the supported subset: side effect inside an assertion ({why}): `{txt}`"));
+                        }
                         out.push(Chunk::Lines(vec![format!("-- L{}: skipped `{}`", line_of(m.span()), txt)]));
                         note!(self, asserts, format!("line {}: `{}`{}", line_of(m.span()), txt, if name.starts_with("debug_") { " (debug builds only)" } else { "" }));
                     } else if single && name == "panic" {
